@@ -130,6 +130,8 @@ class FakeScope:
 def to_ticks(d):
     if type(d) is float:
         return int(round(d * TICKS_PER_SEC))
+    if type(d).__name__ == "Ticks":
+        return d.n
     return d  # ints (also symbolic ints) are ticks already: rule R2
 
 
@@ -362,3 +364,86 @@ def _earliest(scopes):
         if best is None or s.deadline < best.deadline:
             best = s
     return best
+
+
+# --------------------------------------------------------------------------
+# Ticks: a duration in ticks that mixes correctly with the library's float seconds
+# --------------------------------------------------------------------------
+class Ticks:
+    """The stub world passes `timeout` as a number of ticks (rule R2: no symbolic floats).  Code that only hands
+    the timeout to fail_after never notices; code that does arithmetic with it against float seconds (e.g.
+    min(0.5, timeout), remaining -= poll) would mix units.  Ticks converts every float operand (seconds, always a
+    multiple of 1/128 s here) to ticks, so such code keeps its meaning."""
+
+    __slots__ = ("n",)
+
+    def __init__(self, n):
+        self.n = n
+
+    @staticmethod
+    def _t(o):
+        if isinstance(o, Ticks):
+            return o.n
+        if type(o) is float:
+            return int(round(o * TICKS_PER_SEC))
+        if o == 0:
+            return 0
+        if isinstance(o, int):
+            return o * TICKS_PER_SEC  # a bare integer number of seconds
+        raise TypeError("cannot combine Ticks with %r" % (type(o),))
+
+    def __lt__(self, o):
+        return self.n < Ticks._t(o)
+
+    def __le__(self, o):
+        return self.n <= Ticks._t(o)
+
+    def __gt__(self, o):
+        return self.n > Ticks._t(o)
+
+    def __ge__(self, o):
+        return self.n >= Ticks._t(o)
+
+    def __eq__(self, o):
+        try:
+            return self.n == Ticks._t(o)
+        except TypeError:
+            return False
+
+    def __ne__(self, o):
+        return not self.__eq__(o)
+
+    __hash__ = None
+
+    def __bool__(self):
+        return self.n != 0
+
+    def __add__(self, o):
+        return Ticks(self.n + Ticks._t(o))
+
+    __radd__ = __add__
+
+    def __sub__(self, o):
+        return Ticks(self.n - Ticks._t(o))
+
+    def __rsub__(self, o):
+        return Ticks(Ticks._t(o) - self.n)
+
+    def __neg__(self):
+        return Ticks(-self.n)
+
+    def __mul__(self, k):
+        if type(k) is float:
+            raise TypeError("Ticks * float is not modelled")
+        return Ticks(self.n * k)
+
+    __rmul__ = __mul__
+
+    def __repr__(self):
+        return "Ticks(%r)" % (self.n,)
+
+    def __format__(self, spec):
+        return "<ticks>"
+
+    def __float__(self):
+        return self.n / TICKS_PER_SEC
